@@ -15,6 +15,23 @@ Section Round.
   Lemma conv_none name u c : convert_units RO pfwd pinv fac geographic crs_units None name u c = Ok None.
   Proof. reflexivity. Qed.
 
+  Lemma conv_point1 name x y center : name = Nul \/ name = Nextent ->
+    convert_units RO pfwd pinv fac geographic crs_units (Some ((x, y), None)) name (default_units crs_units) center = Ok (Some (x, y)).
+  Proof.
+    intros Hn. pose proof (default_unit_ok fac geographic crs_units facts_wf) as Hu.
+    transitivity (convert_units RO pfwd pinv fac geographic crs_units (Some ((x / 1, y / 1), None)) name (default_units crs_units) center).
+    - repeat f_equal; field.
+    - exact (conv_point pfwd pinv fac geographic crs_units name None None _ _ x y center Hu Hn).
+  Qed.
+  Lemma conv_dist1 name x y center : name = Nradius \/ name = Nresolution -> 0 < x -> 0 < y ->
+    convert_units RO pfwd pinv fac geographic crs_units (Some ((x, y), None)) name (default_units crs_units) center = Ok (Some (x, y)).
+  Proof.
+    intros Hn Hx Hy. pose proof (default_unit_ok fac geographic crs_units facts_wf) as Hu.
+    transitivity (convert_units RO pfwd pinv fac geographic crs_units (Some ((x / 1, y / 1), None)) name (default_units crs_units) center).
+    - repeat f_equal; field.
+    - exact (conv_dist pfwd pinv fac geographic crs_units name None None _ _ x y center Hu Hn Hx Hy).
+  Qed.
+
   (* extent + any positive resolution, projection units: the extent is kept exactly, the shape is the
      pixel count (extent / resolution) pushed through _round_shape *)
   Theorem extent_resolution_rounding x0 y0 x1 y1 dx dy :
@@ -24,14 +41,12 @@ Section Round.
     create (mk_args None None (Some ((x0, y0, x1, y1), None)) None None None (Some ((dx, dy), None)) None None)
     = if (h =? 0)%Z || (w =? 0)%Z then Raised else Area (x0, y0, x1, y1) (h, w).
   Proof.
-    intros Hx Hy Hdx Hdy h w. pose proof (default_unit_ok fac geographic crs_units facts_wf) as Hu.
+    intros Hx Hy Hdx Hdy h w.
     unfold create_area_def. cbn [a_width a_height a_extent a_shape a_ul a_center a_resolution a_radius a_units bind].
-    replace (x0, y0) with (x0 / 1, y0 / 1) by (f_equal; field).
-    replace (x1, y1) with (x1 / 1, y1 / 1) by (f_equal; field).
-    rewrite !(conv_point pfwd pinv fac geographic crs_units Nextent None None _ _ _ _ None Hu (or_intror eq_refl)).
-    rewrite !conv_none. cbn [bind fst snd]. unfold extrapolate. rewrite !conv_none. cbn [bind validate2 fst snd].
-    replace (dx, dy) with (dx / 1, dy / 1) by (f_equal; field).
-    rewrite (conv_dist pfwd pinv fac geographic crs_units Nresolution None None _ _ _ _ _ Hu (or_intror eq_refl)) by assumption.
+    rewrite !(conv_point1 Nextent) by (right; reflexivity).
+    rewrite !conv_none. cbn [bind fst snd]. unfold extrapolate.
+    repeat (progress (try rewrite !conv_none; cbn [bind validate2 fst snd])).
+    rewrite (conv_dist1 Nresolution) by (auto; right; reflexivity).
     cbn [bind fst snd eqb RO zeroT ofZ]. rewrite !Reqb_false by lra. cbn [orb].
     rewrite round_shape_R. cbn [bind fst snd div mul sub add twoT ofZ RO validate_shape].
     replace (2 * ((y1 - y0) / 2) / dy) with ((y1 - y0) / dy) by (field; lra).
